@@ -46,6 +46,23 @@ Faults     : one fault per run at EVERY durability call of the fault scenarios (
              Fault runs that hit a publish inside append_data are also compared with the model (op OFail, k = 0..4;
              k = 4 = the directory fsync failed, the file stays linked); failures inside commit() (manifests,
              list, metadata file, pointer) are judged by the oracle only.
+Data sizes : the writer's durability calls must not depend on HOW MUCH is written.  harness/lib/c16_sizes.py harvests every integer
+             literal c >= 2 of the writer modules (data_operations.py, file_manager.py; ast walk, nothing hard-coded) and runs
+             appends of k*c - 1, k*c, k*c + 1 rows (quick: k <= 2, <= 250 000 rows; thorough: k <= 3, <= 400 000) through every
+             public write path: Table.append_records, Transaction.append_data, Table.append_pandas (skipped without pandas),
+             and the public DataFileWriter driven by the caller (one batch of n rows = what write_pandas_file does; k batches
+             of c rows) + Transaction.append_files (oracle only: an adopted file's marker follows it, outside trace_of).  The
+             largest ones also under strace (arrow's own write(2) calls).  Every such trace goes through the same prefix
+             power-loss oracle, the trace / wf / disciplined correspondence, and the rule "an fsync of the file lies between
+             the LAST write it received and its rename" read directly off the raw trace (c16_sizes.unsynced_tails).  The
+             in-process tracer records the bytes arrow has put into the temp file at every fsync of it (not only at close), so
+             a footer written after an incremental fsync is a separate, later write.
+             Coq: Model/DurableChunks.v replaces the single Write of the regenerated data-writer sequence by an arbitrary list
+             of bursts with optional incremental fsyncs; C16_chunked_each_publish / C16_chunked_disciplined hold for EVERY such
+             list; C16_unsynced_tail_rejected / C16_nofinal_rejected / C16_unsynced_tail_torn: no fsync after the last write =>
+             rejected, and the drop-all power loss leaves a torn file.  translator/gen_durable.py: a durability call in any
+             DataFileWriter method other than open / close, a syncing helper, or a durability call under a condition other than
+             the pinned ones (backend, writer opened) is Unsupported (fail closed); gen_data_writer_burst.
 Bounded    : every in-process run happens in a worker subprocess (harness/lib/c16_worker.py) with a wall-clock
              alarm, an address-space limit and a progress watchdog; a hang / crash / memory blow-up of the library
              is reported as a violation with its input (key operation-not-bounded:*), never a stuck check.
@@ -59,10 +76,12 @@ import sys
 import time
 from typing import Any, Dict, List, Optional, Tuple
 
-from harness.lib import coqbuild, ostrace, powerloss, c16_driver, c16_worker
+from harness.lib import coqbuild, ostrace, powerloss, c16_driver, c16_worker, c16_sizes
 
 LEVEL = "proof"
-THEOREMS = ["C16_durable_prefix", "C16_acked_durable", "C16_each_publish", "C16_publish_data_same", "C16_disciplined_safe"]
+THEOREMS = ["C16_durable_prefix", "C16_acked_durable", "C16_each_publish", "C16_publish_data_same", "C16_disciplined_safe",
+            "C16_chunked_each_publish", "C16_chunked_disciplined", "C16_unsynced_tail_rejected", "C16_nofinal_rejected",
+            "C16_unsynced_tail_torn"]
 REQ = ["DS.Model.Durable"]
 PRE = "Open Scope N_scope.\n"
 
@@ -76,15 +95,24 @@ MANIFEST_ENTRY = {
                   "tied to the code by equality with the observed OS-call traces (in-process interception and strace), the "
                   "observed traces themselves are checked against the proved publish discipline, and an independent "
                   "power-loss evaluator + reader replays every prefix of every observed trace, also with one OS fault "
-                  "(EIO or short write) injected at each durability call, files and directories alike",
+                  "(EIO or short write) injected at each durability call, files and directories alike; data sizes are a dimension "
+                  "of the traces: appends of k*c-1, k*c, k*c+1 rows for every integer literal c of the writer modules through every "
+                  "public write path (append_records, append_data, append_pandas when pandas is present, caller-driven DataFileWriter "
+                  "+ append_files), and C16_chunked_each_publish / C16_chunked_disciplined / C16_unsynced_tail_rejected / "
+                  "C16_nofinal_rejected / C16_unsynced_tail_torn cover a data file written in ANY number of bursts with ANY pattern of "
+                  "incremental fsyncs (whole or absent at every prefix; no fsync after the last write => rejected and torn)",
     "level_note": "trusted: Coq kernel; the POSIX-strict power-loss model (fsync = barrier for one inode, directory fsync = "
                   "barrier for that directory's entries); translator/gen_durable.py; the tracers and the canonicaliser; "
                   "directory creation (makedirs) and the table root's own entry are outside the theorems; OS failures INSIDE "
                   "commit() (manifest / list / metadata file / pointer publishes) are judged by the fault-injection oracle only, "
                   "the theorems cover failures inside append_data (OFail); a directory fsync refused as unsupported (EINVAL / "
                   "ENOTSUP / AttributeError / Windows; dir_fsync_unsupported is pinned) is tolerated by the library: on such a "
-                  "platform the POSIX-strict model does not apply",
-    "technique": "Coq invariant proof over a relational crash model + OS-trace correspondence + prefix power-loss oracle",
+                  "platform the POSIX-strict model does not apply; row counts are bounded (quick 250 000, thorough 400 000 rows per "
+                  "append): a size boundary above that is covered by the translator's rejection of size-dependent durability calls "
+                  "and by the burst theorems only; append_pandas is not run when pandas is not installed (its single-batch shape is "
+                  "run through the caller-driven DataFileWriter instead)",
+    "technique": "Coq invariant proof over a relational crash model + OS-trace correspondence + prefix power-loss oracle + "
+                 "size-boundary appends harvested from the writer's integer literals",
     "design_ref": "DESIGN.md section 5 C16",
 }
 
@@ -399,6 +427,27 @@ def oracle_case(ctx, case: Case, nsched: int, expect_violation: bool = False) ->
     for a in ack_check(case):
         viol.append({"prefix": a["prefix"], "outcome": "drop_all", "problems": [dict(a, problem="acknowledged commit not durable")]})
     return viol
+
+
+def tail_check(ctx, case: Case, already: bool) -> None:
+    """The durable-prefix rule read directly off the raw trace (c16_sizes.unsynced_tails): a file that is renamed into
+    place must have been fsynced after the LAST write it received.  Cross-check of the prefix evaluator: a trace that
+    breaks the rule for a file some version references, while the evaluator found no crash state showing the torn
+    file, is reported on its own."""
+    locks = os.path.join(case.root, ".locks") + os.sep
+    bad = c16_sizes.unsynced_tails([ev for ev in case.raw if not str(ev.get("path", "")).startswith(locks)])
+    ctx.count(1)
+    if not bad or already:
+        return
+    b = bad[0]
+    rel = os.path.relpath(b["to"], case.root)
+    ctx.violation(f"unsynced-tail:{powerloss.kind_of(rel)}",
+                  f"{rel} was renamed into place with {b['bytes_written'] - b['bytes_synced']} of its {b['bytes_written']} bytes written "
+                  f"after its last fsync ({'no fsync at all' if b['last_fsync_index'] is None else 'fsync at raw call #%d' % b['last_fsync_index']}, "
+                  f"last write at #{b['last_write_index']}, rename at #{b['rename_index']}) and the crash-state enumeration did NOT find the torn "
+                  f"file -- scenario {case.steps}, tracer {case.mode}",
+                  {"steps": case.steps, "mode": case.mode, "mutation": getattr(case, "mutation", None), "fault": case.fault,
+                   "unsynced_tail": {k: (os.path.relpath(v, case.root) if k in ("from", "to") else v) for k, v in b.items()}})
 
 
 def shrink_steps(ctx, steps: List[Any], mode: str, mutation: Optional[str], still_fails) -> List[Any]:
@@ -766,7 +815,8 @@ def run(ctx) -> None:
                 "random histories; a case is distinct by (tracer, step list); oracle evaluations = (prefix, outcome) pairs of the "
                 "observed raw traces judged by the independent reader; fault class = one OSError(EIO) at each durability call "
                 "(temp creation / write / fsync descriptor / fsync / rename / directory descriptor / directory fsync) of the fault "
-                "scenarios, one run per call")
+                "scenarios, one run per call; size class = appends of k*c-1, k*c, k*c+1 rows for every integer literal c of "
+                "data_operations.py / file_manager.py through every public write path")
     ctx.trusted_base += [
         "translator/gen_durable.py (ast walk of write_file / DataFileWriter.open+close -> call sequence; their except handlers -> which "
         "failures propagate and what the cleanup does; golden order of the commit steps)",
@@ -799,11 +849,31 @@ def run(ctx) -> None:
     scases = make_cases(ctx, [{"steps": s, "mode": "strace"} for s in strace_scen])
     ctx.stats["strace_scenarios"] = len(scases)
     ctx.stats["strace_run_s"] = round(time.time() - t0, 1)
-    for c in cases + scases:
+    # ---- data sizes: row counts k*c - 1, k*c, k*c + 1 for every integer literal c of the writer modules, through every
+    #      public write path (c16_sizes); the exact multiples also under strace (arrow's own write(2) calls)
+    t0 = time.time()
+    consts = c16_sizes.harvest_constants(coqbuild.REPO)
+    sized_m, sized_o, sstats = c16_sizes.sized_scenarios(list(consts), 250_000 if quick else 400_000, 2 if quick else 3,
+                                                         every_path=not quick)
+    sstats["constant_sites"] = {str(c): v[:3] for c, v in consts.items()}
+    sized_cases = make_cases(ctx, [{"steps": s, "mode": "inproc"} for s in sized_m])
+    pre_cases = make_cases(ctx, [{"steps": s, "mode": "inproc"} for s in sized_o])
+    rows_of = lambda steps: max([st[1] for st in steps if len(st) > 1 and isinstance(st[1], int)] + [0])   # noqa: E731
+    by_rows = sorted(sized_m, key=rows_of)
+    sized_strace = by_rows[-1:] if quick else by_rows[-4:]
+    sized_scases = make_cases(ctx, [{"steps": s, "mode": "strace"} for s in sized_strace])
+    sstats["strace_scenarios"] = len(sized_scases)
+    sstats["run_s"] = round(time.time() - t0, 1)
+    ctx.stats["data_sizes"] = sstats
+    if not sized_cases or not pre_cases:
+        ctx.proof_problems.append("no data-size scenario was generated (no integer literal found in the writer modules)")
+    for c in cases + scases + sized_cases + pre_cases + sized_scases:
         if c.error:
             report_unbounded(ctx, c)
-    cases = [c for c in cases if not c.error]
-    scases = [c for c in scases if not c.error]
+    n_base = len([c for c in cases if not c.error])
+    cases = [c for c in cases + sized_cases if not c.error]
+    scases = [c for c in scases + sized_scases if not c.error]
+    pre_cases = [c for c in pre_cases if not c.error]
     allc = cases + scases
     if len(allc) < 2:
         ctx.proof_problems.append("no scenario completed")
@@ -822,9 +892,10 @@ def run(ctx) -> None:
 
     # ---- implementation-only oracle: every prefix of every observed trace
     t0 = time.time()
-    for c in allc:
+    for c in allc + pre_cases:
         viol = oracle_case(ctx, c, nsched=2 if quick else 6)
         report_violations(ctx, c, viol, None)
+        tail_check(ctx, c, bool(viol))
     ctx.stats["oracle_s"] = round(time.time() - t0, 1)
 
     # ---- fault class: OSError at EVERY durability call (temp creation, write, descriptor for fsync, fsync,
@@ -900,6 +971,12 @@ def replay(ctx, payload) -> int:
     sched = {int(k): [tuple(b) for b in v] for k, v in (case.get("schedule") or {}).items()} or None
     viol, _ = powerloss.sweep(c.raw, c.root, c.reader, schedule=sched)
     viol += [{"prefix": a["prefix"], "outcome": "drop_all", "problems": [dict(a, problem="acknowledged commit not durable")]} for a in ack_check(c)]
+    if "unsynced_tail" in case:
+        locks = os.path.join(c.root, ".locks") + os.sep
+        bad = c16_sizes.unsynced_tails([ev for ev in c.raw if not str(ev.get("path", "")).startswith(locks)])
+        if bad:
+            print(f"replay: STILL FAILS: renamed with bytes written after the last fsync: {bad[0]}")
+            return 1
     want = case.get("prefix")
     hit = [v for v in viol if v["prefix"] == want] or viol
     if hit:
